@@ -148,6 +148,13 @@ theorem blkSame_alarmRearm (p : Prog) (s : St) (n : Nat) :
   · rename_i h; subst h; exact ⟨rfl, rfl⟩
   · exact ⟨rfl, rfl⟩
 
+/-- After the re-arm every node of the Alarm's subtree (the Alarm included) is not completed. -/
+theorem completed_alarmRearm_mem (p : Prog) (s : St) (n k : Nat) (hk : k ∈ n :: descendants p n) :
+    ((alarmRearm p s n).rt k).completed = false := by
+  unfold alarmRearm
+  simp only [rt_registerInterrupt, rt_resetSubtree_mem, hk, if_true]
+  split <;> simp [resetOne]
+
 /-- solves `BlkSame s (…primitive updates of s…)` -/
 macro "blk_same" : tactic => `(tactic|
   (refine ⟨by simp, fun k => ?_⟩
@@ -189,10 +196,11 @@ inductive BlkEffect (p : Prog) (s : St) (n pc : Nat) (s' : St) : Prop
   | endBlocks : (node p n).kind = .endBlocks → pc = 0 → BlkSame (endBlocksStep p s) s' → BlkEffect p s n pc s'
   /-- Alarm re-arm: `reset_runtime_state(recursive=True)` of the Alarm's subtree. -/
   | rearm (c : Cond) : (node p n).kind = .alarm c → pc = 3 → BlkSame (resetSubtree p s n) s' →
-      BlkEffect p s n pc s'
+      (∀ k, k ∈ n :: descendants p n → (s'.rt k).completed = false) → BlkEffect p s n pc s'
   /-- Call macro "prepare invoke": the macro's subtree is reset. -/
   | recall (name : String) (m : Nat) : (node p n).kind = .call name → pc = 0 → s.macros.lookup name = some m →
-      BlkSame (resetSubtree p s m) s' → BlkEffect p s n pc s'
+      BlkSame (resetSubtree p s m) s' → (∀ k, k ∈ m :: descendants p m → (s'.rt k).completed = false) →
+      BlkEffect p s n pc s'
 
 theorem stepBody_blk (p : Prog) (s : St) (n pc : Nat) (below : List Frame) :
     BlkEffect p s n pc (outState (stepBody p s n pc below)) := by
@@ -246,7 +254,10 @@ theorem stepBody_blk (p : Prog) (s : St) (n pc : Nat) (below : List Frame) :
     · apply BlkEffect.same; repeat' split
       all_goals (simp only [outState]; blk_same)
     · apply BlkEffect.same; simp only [outState]; blk_same
-    · exact .rearm c hk rfl (by simp only [outState]; exact blkSame_alarmRearm p s n)
+    · refine .rearm c hk rfl (by simp only [outState]; exact blkSame_alarmRearm p s n) ?_
+      intro k hk'
+      simp only [outState]
+      exact completed_alarmRearm_mem p s n k hk'
     · exact .same (BlkSame.rfl' _)
   | call name =>
     unfold stepBody
@@ -264,8 +275,10 @@ theorem stepBody_blk (p : Prog) (s : St) (n pc : Nat) (below : List Frame) :
             simp only []
             by_cases hrs : (getRt s m).runStarted ≤ (getRt s m).runCompleted
             · rw [if_pos hrs]
-              refine .recall name m hk rfl hm ?_
-              blk_same
+              refine .recall name m hk rfl hm (by blk_same) ?_
+              intro k hk'
+              simp only [rt_emit, rt_setRt, rt_resetSubtree_mem, hk', if_true]
+              split <;> simp [resetOne]
             · rw [if_neg hrs]
               exact .same (by blk_same)
     · exact .same (BlkSame.rfl' _)
